@@ -918,10 +918,30 @@ func runFloater(c *vlib.Case, rng *rand.Rand, d *disc, allowOwn bool) *floaterCa
 		sdesc = "solver=nil after a preview with a loosened Floater97DefaultSolver()"
 		c.Count("floater.solver.nil_after_loosened_default", 1)
 	}
+	// Floater97 itself does not ask for consistently wound triangles: with a boundary map and
+	// weights that do not depend on the winding (own map; uniform / chord-length / own weights,
+	// computed from the mesh as it is) some faces may list their corners the other way round
+	meshArg := d.mesh
+	if strings.HasPrefix(bdesc, "own") && w.name != "shape" && rng.Intn(2) == 0 {
+		meshArg = model3d.NewMesh()
+		flipped := 0
+		d.mesh.Iterate(func(t *model3d.Triangle) {
+			if rng.Intn(3) == 0 {
+				meshArg.Add(&model3d.Triangle{t[1], t[0], t[2]})
+				flipped++
+			} else {
+				meshArg.Add(t)
+			}
+		})
+		if flipped > 0 {
+			sdesc += fmt.Sprintf(", %d faces wound the other way", flipped)
+			c.Count("floater.calls_on_a_disc_with_mixed_winding", 1)
+		}
+	}
 	desc := fmt.Sprintf("Floater97(boundary=%s, weights=%s, %s)", bdesc, w.String(), sdesc)
 	var uvLib *model3d.CoordMap[C2]
 	c.Count("floater.calls", 1)
-	if !guard(c, d.s.witness, desc, func() { uvLib = model3d.Floater97(d.mesh, bmLib, wmLib, solver) }) {
+	if !guard(c, d.s.witness, desc, func() { uvLib = model3d.Floater97(meshArg, bmLib, wmLib, solver) }) {
 		return nil
 	}
 	c.Count("floater.boundary."+bdescShort(bdesc), 1)
